@@ -243,3 +243,61 @@ fn c07_probe_restores_invariant_known() {
     let _ = Collect::enabled(&stack, &VMETA);
     assert!(thread_bits() == 0, "C07.probe.enabled_without_dispatch_leaves_bitmap_as_found");
 }
+
+// ---------- the Context a Filtered layer hands to its wrapped layer carries the layer's own filter id:
+// a span this filter rejected is invisible to the wrapped layer in EVERY callback (lookup, scope, parent)
+static PROBE_CALLS: VAtomicUsize = VAtomicUsize::new(0);
+static PROBE_SAW_REJECTED: VAtomicUsize = VAtomicUsize::new(0);
+static PROBE_SAW_ACCEPTED: VAtomicUsize = VAtomicUsize::new(0);
+static PROBE_PARENT_OF_3: VAtomicUsize = VAtomicUsize::new(99);
+struct VProbe;
+fn probe(ctx: &Context<'_, VRoot>) {
+    PROBE_CALLS.fetch_add(1, VSeq);
+    if ctx.span(&span::Id::from_u64(2)).is_some() { PROBE_SAW_REJECTED.fetch_add(1, VSeq); }
+    if ctx.span(&span::Id::from_u64(1)).is_some() { PROBE_SAW_ACCEPTED.fetch_add(1, VSeq); }
+    // span 3 is accepted and its parent is the rejected span 2, whose parent is the accepted span 1
+    if let Some(s) = ctx.span(&span::Id::from_u64(3)) { PROBE_PARENT_OF_3.store(s.parent().map(|p| p.id().into_u64()).unwrap_or(0) as usize, VSeq); }
+}
+impl Subscribe<VRoot> for VProbe {
+    fn on_new_span(&self, _: &span::Attributes<'_>, _: &span::Id, ctx: Context<'_, VRoot>) { probe(&ctx) }
+    fn on_record(&self, _: &span::Id, _: &span::Record<'_>, ctx: Context<'_, VRoot>) { probe(&ctx) }
+    fn on_follows_from(&self, _: &span::Id, _: &span::Id, ctx: Context<'_, VRoot>) { probe(&ctx) }
+    fn on_event(&self, _: &Event<'_>, ctx: Context<'_, VRoot>) { probe(&ctx) }
+    fn on_enter(&self, _: &span::Id, ctx: Context<'_, VRoot>) { probe(&ctx) }
+    fn on_exit(&self, _: &span::Id, ctx: Context<'_, VRoot>) { probe(&ctx) }
+    fn on_close(&self, _: span::Id, ctx: Context<'_, VRoot>) { probe(&ctx) }
+    fn on_id_change(&self, _: &span::Id, _: &span::Id, ctx: Context<'_, VRoot>) { probe(&ctx) }
+}
+#[kani::proof]
+#[kani::unwind(6)]
+#[kani::stub(core::fmt::Formatter::pad, pad_stub)]
+fn c07_every_callback_hands_the_wrapped_layer_a_filtered_context() {
+    let mut root = VRoot::empty();
+    root.next_filter = nd(); kani::assume(root.next_filter < 63);
+    let k = root.next_filter;
+    let other_bits: u64 = nd();
+    // span 1: accepted by this filter; span 2: rejected by it; span 3: accepted, child of 2, which is a child of 1
+    root.exists[1] = true; root.bits[1] = other_bits & !(1u64 << k);
+    root.exists[2] = true; root.bits[2] = other_bits | (1u64 << k); root.parent[2] = 1;
+    root.exists[3] = true; root.bits[3] = other_bits & !(1u64 << k); root.parent[3] = 2;
+    let mut layer = Filtered::new(VProbe, VFil::any());
+    Subscribe::<VRoot>::on_subscribe(&mut layer, &mut root);
+    thread_state(0);
+    let id = span::Id::from_u64(1);
+    let vs = VMETA.fields().value_set(&[]);
+    let which: u8 = nd(); kani::assume(which < 8);
+    match which {
+        0 => { let a = span::Attributes::new(&VMETA_SPAN, &vs); Subscribe::<VRoot>::on_new_span(&layer, &a, &id, Context::__verif_new(&root)) }
+        1 => { let ev = Event::new(&VMETA, &vs); Subscribe::<VRoot>::on_event(&layer, &ev, Context::__verif_new(&root)) }
+        2 => Subscribe::<VRoot>::on_enter(&layer, &id, Context::__verif_new(&root)),
+        3 => Subscribe::<VRoot>::on_exit(&layer, &id, Context::__verif_new(&root)),
+        4 => Subscribe::<VRoot>::on_close(&layer, id.clone(), Context::__verif_new(&root)),
+        5 => Subscribe::<VRoot>::on_record(&layer, &id, &span::Record::new(&vs), Context::__verif_new(&root)),
+        6 => Subscribe::<VRoot>::on_id_change(&layer, &id, &span::Id::from_u64(3), Context::__verif_new(&root)),
+        _ => Subscribe::<VRoot>::on_follows_from(&layer, &id, &span::Id::from_u64(3), Context::__verif_new(&root)),
+    }
+    assert!(PROBE_CALLS.load(VSeq) == 1, "C07.Filtered.context.wrapped_layer_called_once_for_an_accepted_span");
+    assert!(PROBE_SAW_REJECTED.load(VSeq) == 0, "C07.Filtered.context.span_rejected_by_this_filter_is_invisible_to_the_wrapped_layer");
+    assert!(PROBE_SAW_ACCEPTED.load(VSeq) == 1, "C07.Filtered.context.accepted_span_stays_visible");
+    assert!(PROBE_PARENT_OF_3.load(VSeq) == 1, "C07.Filtered.context.parent_lookup_skips_the_rejected_ancestor");
+}
